@@ -276,6 +276,35 @@ Theorem C10_invoke_probe : probe_failing = [].
 Proof. exact InvokeProbe.invoke_probe_agrees. Qed.
 Theorem C10_invoke_probe_nonempty : (100 <=? length c10_probe)%nat = true.
 Proof. exact InvokeProbe.invoke_probe_nonempty. Qed.
+From TarsV Require Import Xlate.GoSem Gen.Translated Xlate.InvokeEquiv.
+(* ---- the CURRENT source of Protocol.Invoke / InvokeTimeout builds the model's replies ----
+   Gen/Translated.v is regenerated from tars/tarsprotocol.go on every run: every assignment to the response packet outside
+   the generated dispatcher (zero value, echo of version / request id / packet type, the queue-timeout answer, return code
+   and text of a failed call, the handle-timeout answer with its one-way test). Composed in the order of the source along
+   a path (which branch runs is not translated), they give the replies the theorems above speak about. *)
+Theorem C10_source_queue_timeout_reply : forall r,
+  exists g, go_invoke_rsp (req_rec r) PQueueTimeout = Next g /\
+            rsp_is g (with_ret (base_reply r) c_TARSSERVERQUEUETIMEOUT timeout_text).
+Proof. exact InvokeEquiv.invoke_queue_timeout_equiv. Qed.
+Theorem C10_source_base_reply : forall r,
+  exists g, go_invoke_rsp (req_rec r) PNoError = Next g /\ rsp_is g (base_reply r).
+Proof. exact InvokeEquiv.invoke_base_equiv. Qed.
+Theorem C10_source_error_reply : forall r e other_code,
+  exists g, go_invoke_rsp (req_rec r) (err_path e other_code) = Next g /\
+            rsp_is g (with_ret (base_reply r) (err_code e) (err_msg e)).
+Proof. exact InvokeEquiv.invoke_error_equiv. Qed.
+Theorem C10_source_handle_timeout_reply : forall r,
+  match go_invoke_timeout (req_rec r) with
+  | Return bytes => bytes = []%list /\ timeout_replies r = []%list
+  | Next g => exists p, timeout_replies r = [p]%list /\ p = handle_timeout_reply r /\ rsp_is g p
+  | Panic => False
+  end.
+Proof. exact InvokeEquiv.invoke_timeout_equiv. Qed.
+Theorem C10_source_identity : forall r pa g, go_invoke_rsp (req_rec r) pa = Next g ->
+  (go_requestf_ResponsePacket_IRequestId g = q_id r /\
+   go_requestf_ResponsePacket_IVersion g = q_ver r /\
+   go_requestf_ResponsePacket_CPacketType g = q_ptype r)%Z.
+Proof. exact InvokeEquiv.invoke_identity_of_source. Qed.
 
 Print Assumptions C10_protocol_constants.
 Print Assumptions C10_count.
@@ -324,3 +353,8 @@ Print Assumptions C10_connection_interleaved.
 Print Assumptions C10_shared_current_refuted.
 Print Assumptions C10_invoke_probe.
 Print Assumptions C10_invoke_probe_nonempty.
+Print Assumptions C10_source_queue_timeout_reply.
+Print Assumptions C10_source_base_reply.
+Print Assumptions C10_source_error_reply.
+Print Assumptions C10_source_handle_timeout_reply.
+Print Assumptions C10_source_identity.
